@@ -36,6 +36,89 @@ def fingerprint(net):
     return h.hexdigest()[:16]
 
 
+async def reader_cancel_sweep(flavor, seg, cnt, v, sigs):
+    """On a multiplexed HTTP/2 connection whichever caller holds the read lock reads for all streams. Caller A waits
+    for a late response (so it keeps reading), caller C downloads a body whose frames arrive in several reads, and A is
+    cancelled at its k-th suspension point, for every k and every cancellation style. C must get exactly its own body
+    - or a documented error if the cancellation cost the connection - and must not hang."""
+    import anyio
+    from .. import simnet, endpoints, runners
+    from ..endpoints import Resp
+    from ..world import mk_pool, API, guarded, documented, exc_name
+    from ..scenarios import styles_for
+    body_c = b"".join(b"%05d;" % i for i in range(1500))  # 9000 bytes; every position is recognisable
+
+    async def one(style, k):
+        net = simnet.Net()
+        net.log_events = False
+        if seg != "all":
+            net.segmentation = simnet.Segmentation("fixed", seg)
+
+        def responder(req, origin):
+            tok = req.token or b"-"
+            if tok == b"A":
+                return Resp(200, b"OK", [(b"X-Echo", tok)], b"a" * 100, delay=50.0)
+            return Resp(200, b"OK", [(b"X-Echo", tok)], body_c if tok == b"C" else b"w", delay=0.2 if tok == b"C" else 0.0)
+
+        endpoints.Origin(net, "o.test", 443, tls=True, alpn=["h2"], responder=responder,
+                         h2_script={"settings": {3: 100}, "data_chunk": 1400})
+        pool = mk_pool(flavor, net, http2=True, max_connections=1)
+        api = API(flavor, pool, net)
+        res = {}
+
+        async def scen():
+            await api.request("GET", "https://o.test/warm", headers=[("X-Token", "W")])
+
+            async def a_caller():
+                simnet.CALL.set("A")
+                res["A"], res["K"] = await runners.run_with_cancel(
+                    flavor, lambda: api.request("GET", "https://o.test/a", headers=[("X-Token", "A")]), style, k)
+
+            async def c_caller():
+                simnet.CALL.set("C")
+                await anyio.sleep(0.05)
+                try:
+                    r_ = await api.request("GET", "https://o.test/c", headers=[("X-Token", "C")])
+                    res["C"] = runners.Outcome("ok", (r_.status, r_.content))
+                except Exception as exc:  # noqa
+                    res["C"] = runners.Outcome("exc", exc=exc)
+            async with anyio.create_task_group() as tg:
+                tg.start_soon(a_caller)
+                tg.start_soon(c_caller)
+            return True
+
+        out = await guarded(flavor, scen)
+        await guarded(flavor, api.close_pool)
+        return out, res, len(net.transports)
+
+    out, res, _ = await one(None, None)
+    K = res.get("K", 0)
+    if out.kind != "ok" or res.get("C") is None or res["C"].kind != "ok" or res["C"].value != (200, body_c):
+        v("reader-cancel:baseline-failed", f"{out!r} {res.get('C')!r}"[:300], {"flavor": flavor, "seg": seg})
+        return
+    for style in styles_for(flavor):
+        for k in range(1, K + 1):
+            out, res, ntr = await one(style, k)
+            cnt["reader_cancel_runs"] += 1
+            ctx = {"flavor": flavor, "seg": seg, "style": style, "k": k, "of": K}
+            c = res.get("C")
+            if out.kind == "hang" or c is None:
+                v("reader-cancel:other-stream-never-completes", f"A cancelled ({style}) at suspension point {k}/{K}: the other "
+                  f"caller's download never ends ({out!r})", ctx)
+            elif c.kind == "ok":
+                cnt["reader_cancel_other_ok"] += 1
+                if c.value != (200, body_c):
+                    got = c.value[1]
+                    v("crosstalk:hole-in-body-after-sibling-cancelled", f"A cancelled ({style}) at suspension point {k}/{K}: the other "
+                      f"caller got {len(got)} of {len(body_c)} body bytes without an error (first difference at "
+                      f"{next((i for i in range(min(len(got), len(body_c))) if got[i] != body_c[i]), min(len(got), len(body_c)))})", ctx)
+            elif c.kind == "exc":
+                cnt["reader_cancel_other_failed"] += 1
+                if not documented(c.exc):
+                    v("reader-cancel:undocumented:" + exc_name(c.exc), repr(c.exc), ctx)
+            sigs.add(f"reader-cancel|{flavor}|{seg}|{style}|{k}")
+
+
 def run_case(case):
     viol = []
     cnt = {"workloads": 0, "responses_checked": 0, "oracle_wire_requests": 0, "reused_connections": 0,
@@ -49,6 +132,11 @@ def run_case(case):
             viol.append({"key": key, "what": what, "detail": detail})
 
     async def main():
+        if case.get("kind") == "reader-cancel":
+            for key in ("reader_cancel_runs", "reader_cancel_other_ok", "reader_cancel_other_failed"):
+                cnt[key] = 0
+            await reader_cancel_sweep(case["flavor"], case["seg"], cnt, v, sigs)
+            return
         for spec in case["specs"]:
             wl = Workload(spec)
             out = await wl.run()
@@ -109,4 +197,7 @@ def plan(tier, seed):
             # of their own per request; the origin reports the Host / :authority it was asked for
             sp["vhosts"] = sp["seed"] % 2 == 0
         cases.append({"flavor": flavor, "specs": specs, "seed": r.randrange(1 << 30)})
+    for flavor in ("asyncio", "trio"):
+        for seg in ((300, 900, "all") if tier == "quick" else (300, 900, 1400, 5000, "all")):
+            cases.append({"kind": "reader-cancel", "flavor": flavor, "seg": seg, "seed": 1})
     return cases
